@@ -147,13 +147,13 @@ theorem getT_putT (s : St) (tid tid' : String) (t : TraceSt) :
   simp only [AList.get_put]
   by_cases h : tid' = tid <;> simp [h]
 
-theorem count_rate32 (r : Rec) (k : Kind) : (r.count k).rate32 = r.rate32 := by cases k <;> rfl
+theorem count_rate (r : Rec) (k : Kind) : (r.count k).rate = r.rate := by cases k <;> rfl
 theorem count_reason (r : Rec) (k : Kind) : (r.count k).reason = r.reason := by cases k <;> rfl
 
 /-- The trace has been decided "keep", nothing says "dropped", and the record holds this rate and
 reason.  (No operation of the model can undo this: a decided trace never becomes live again.) -/
-def KeptAs (t : TraceSt) (rate32 : Nat) (reason : String) : Prop :=
-  t.live = none ∧ t.dropped = false ∧ ∃ r, t.kept = some r ∧ r.rate32 = rate32 ∧ r.reason = reason
+def KeptAs (t : TraceSt) (rate : Nat) (reason : String) : Prop :=
+  t.live = none ∧ t.dropped = false ∧ ∃ r, t.kept = some r ∧ r.rate = rate ∧ r.reason = reason
 
 theorem step_span_kept (s : St) (tid : String) (sp : Span) (r : Rec)
     (hl : (getT s tid).live = none) (hd : (getT s tid).dropped = false) (hk : (getT s tid).kept = some r) :
@@ -166,7 +166,7 @@ theorem step_stress_kept (s : St) (tid : String) (sp : Span) (r : Rec)
     (hd : (getT s tid).dropped = false) (hk : (getT s tid).kept = some r) :
     step s (.stress tid sp none) =
       (putT s tid { (getT s tid) with kept := some (r.count sp.kind) },
-       .fwd (fwdStress s.cfg s.host (r.count sp.kind).rate32 (r.count sp.kind).reason sp)) := by
+       .fwd (fwdStress s.cfg s.host (r.count sp.kind).rate (r.count sp.kind).reason sp)) := by
   simp [step, checkSpan, hd, hk]
 
 theorem step_stress_kept_bad (s : St) (tid : String) (sp : Span) (r : Rec) (x : Nat × Bool × String)
@@ -201,7 +201,7 @@ theorem keptAs_step (s : St) (op : Op) (tid : String) (R : Nat) (rs : String)
   obtain ⟨hl, hd, r, hk, hr, hrs⟩ := h
   have keep : KeptAs (getT s tid) R rs := ⟨hl, hd, r, hk, hr, hrs⟩
   have counted : ∀ k, KeptAs { (getT s tid) with kept := some (r.count k) } R rs := fun k =>
-    ⟨hl, hd, r.count k, rfl, by rw [count_rate32, hr], by rw [count_reason, hrs]⟩
+    ⟨hl, hd, r.count k, rfl, by rw [count_rate, hr], by rw [count_reason, hrs]⟩
   cases op with
   | span tid' sp =>
     by_cases ht : tid' = tid
